@@ -986,6 +986,132 @@ class FilterView(Model):
         raise Unsupported('iteration over a filtered label list needs a loop invariant')
 
 
+class ConcatView(Model):
+    """A + B for two label lists of symbolic length: length n1 + n2, positions of A then of B, counts add up"""
+    prefix = []
+    is_label_list_view = True
+
+    def __init__(self, a, b):
+        self.a, self.b = a, b
+        self.n = a.n + b.n
+
+    def elem(self, i):
+        return z3.If(i < self.a.n, self.a.elem(i), self.b.elem(i - self.a.n))
+
+    def count(self, l):
+        return self.a.count(l) + self.b.count(l)
+
+    def concrete_len(self, it=None):
+        return None
+
+    def m_len(self, it):
+        return Sym(self.n)
+
+    def m_contains(self, it, x):
+        return _simp(self.count(it.label_term(x)) > 0)
+
+    def m_copy_list(self, it):
+        return self
+
+    def m_iter(self, it):
+        raise Unsupported('iteration over a concatenated label list needs a loop invariant')
+
+
+def concat_label_lists(a, b):
+    ok = lambda v: isinstance(v, (FilterView, ConcatView, AbsLabelSeq, MappedView)) or getattr(v, 'is_label_list_view', False)
+    if ok(a) and ok(b):
+        return ConcatView(a, b)
+    return NOTFOUND
+
+
+class NameMap(Model):
+    """dict label -> label (old_to_new_names of connect_circuit without prefix): the connector pairs c_i -> t_i, every
+    other key mapped to itself; dom(l) = the keys present"""
+
+    def __init__(self, pairs, idkeys):
+        self.pairs = list(pairs)          # [(c_i term, t_i term)]
+        self.idkeys = idkeys              # l -> Bool: keys mapped to themselves
+
+    def isconn(self, l):
+        return z3.Or([l == c for c, _ in self.pairs]) if self.pairs else z3.BoolVal(False)
+
+    def dom(self, l):
+        return z3.Or(self.isconn(l), self.idkeys(l))
+
+    def val(self, l):
+        r = l
+        for c, t in reversed(self.pairs):
+            r = z3.If(l == c, t, r)
+        return r
+
+    def m_contains(self, it, k):
+        return _simp(self.dom(it.label_term(k)))
+
+    def m_getitem(self, it, k):
+        kt = it.label_term(k)
+        if not it.ctx.choose(_simp(self.dom(kt))):
+            it.raise_('KeyError', 'name map')
+        return Sym(z3.simplify(self.val(kt)))
+
+    def m_setitem(self, it, k, v):
+        kt, vt = it.label_term(k), it.label_term(v)
+        it.ctx.check('name-map/new-key-maps-to-itself', z3.And(kt == vt, z3.Not(self.isconn(kt))), {'witness': 'name-map'})
+        old = self.idkeys
+        self.idkeys = lambda l: z3.Or(l == kt, old(l))
+
+    def mapped_count(self, count):
+        """count view of the image of a sequence (with count view `count`) whose elements are keys of the map"""
+        def c2(g):
+            r = z3.If(self.isconn(g), 0, count(g))
+            for c, t in self.pairs:
+                r = r + z3.If(g == t, count(c), 0)
+            return r
+        return c2
+
+    def m_map_lookup(self, it, src):
+        """tuple(D[x] for x in ops): every element must be a key (KeyError otherwise)"""
+        i = it.ctx.fresh(I, 'imap')
+        if not it.ctx.choose(_simp(z3.Implies(z3.And(i >= 0, i < src.n), self.dom(src.elem(i))))):
+            it.raise_('KeyError', 'name map')
+        j = z3.Int('j!map')
+        it.ctx.assume(z3.ForAll([j], z3.Implies(z3.And(j >= 0, j < src.n), self.dom(src.elem(j)))))      # (the lookup loop did not raise)
+        o = OpsSeq(src.n, (lambda q: self.val(src.elem(q))), self.mapped_count(src.count))
+        o.prefix = []
+        return o
+
+    def m_map_view(self, it, fv):
+        return MappedView(self, fv)
+
+
+class MappedView(Model):
+    """[D[x] for x in L]: element-wise image of a label list view under a NameMap"""
+    prefix = []
+    is_label_list_view = True
+
+    def __init__(self, nm, src):
+        self.nm, self.src = nm, src
+        self.n = src.n
+        self.count = nm.mapped_count(src.count)
+
+    def elem(self, i):
+        return self.nm.val(self.src.elem(i))
+
+    def concrete_len(self, it=None):
+        return None
+
+    def m_len(self, it):
+        return Sym(self.n)
+
+    def m_contains(self, it, x):
+        return _simp(self.count(it.label_term(x)) > 0)
+
+    def m_copy_list(self, it):
+        return self
+
+    def m_iter(self, it):
+        raise Unsupported('iteration over a mapped label list needs a loop invariant')
+
+
 class ListIndex:
     """result of list.index(x): the first position holding x (only used to write back into the same list)"""
 
@@ -1304,6 +1430,9 @@ class AbsLabelSeq(Model):
     def m_mutable_copy(self, it):
         return _mutable_copy(self.n, self.elem, self.count)
 
+    def m_filter_view(self, it, pred):
+        return FilterView(it, self.n, self.elem, self.count, pred)
+
     def m_len(self, it):
         return Sym(self.n)
 
@@ -1351,7 +1480,7 @@ class ForallInDom(object):
         if isinstance(iterable, BlockList):
             iterable.bind(it)
             return True
-        return isinstance(iterable, (AbsLabelSeq, OpsSeq, LabelList, FilterView)) and iterable.concrete_len(it) is None
+        return (isinstance(iterable, (AbsLabelSeq, OpsSeq, LabelList)) or getattr(iterable, 'is_label_list_view', False)) and iterable.concrete_len(it) is None
 
     def havoc(self, it, env):
         pass
